@@ -1,8 +1,571 @@
-//! `filterfmt` driver (stub; see DESIGN.md).
+//! `filterfmt` driver (C14, "filters never hide a key that is present").  Three parts per run:
+//!
+//! (a) builder / reader protocol: block sequences from the shape space of `spec/RainFilter.tla`
+//!     (offsets crossing 0, 1, 2+ range boundaries, several blocks per 2 KiB range, empty ranges,
+//!     keys pending at finish, an empty final block) are executed on the REAL
+//!     `FilterBlockBuilder` / `FilterBlockReader` (through `VFilterBuilder` / `VFilterReader`),
+//!     twice: with the real `BloomFilterPolicy::new(bits)` and with an EXACT policy implemented
+//!     here through the public `raindb::FilterPolicy` trait (filter = the serialised key list,
+//!     key_may_match = membership), so that a key assigned to the wrong range is visible instead
+//!     of being masked by a lucky Bloom hit.  For the exact policy the real filter block is
+//!     decoded and logged, so the specification judges the real layout as well.
+//! (b) the policy axiom: for bits_per_key 1..=64 and generated key sets (size 0..3000,
+//!     duplicates, the empty key, every length mod 4, arbitrary bytes) create_filter +
+//!     key_may_match for every member; the count of misses is logged.
+//! (c) whole tables built through `build_table` with Bloom and exact policies and several block
+//!     sizes; `get` for every stored (key, sequence) - must never be "not in this file".
+//!
+//! Trace vocabulary (see also tablefmt.rs for Table / Gets):
+//!
+//!   Reset        {run, seed, tag:"", nk, driver:"filterfmt"}
+//!   FilterBuilt  {range:2048, policy:"exact"|"bloom", bits, nf, ok, blocks:[{off, keys:[ids]}...],
+//!                 hasf, filters:[[ids]...]}    hasf: `filters` = the decoded real filters
+//!   FilterProbes {list:[[off, key, res(0/1)]...]}   answers of the real reader
+//!   PolicyProbe  {bits, n, distinct, missing, errs, first, shape}
+//!   Table / Gets as in tablefmt (part c)
+//!   End          {}
 
+use rand::rngs::StdRng;
+use rand::seq::SliceRandom;
+use rand::{Rng, SeedableRng};
+use raindb::filter_policy::FilterPolicyError;
+use raindb::verif::{VFilterBuilder, VFilterReader};
+use raindb::{BloomFilterPolicy, FilterPolicy};
+use serde_json::{json, Value};
 use std::collections::HashMap;
+use std::path::PathBuf;
+use std::sync::Arc;
 
-pub fn cmd(_m: &HashMap<String, String>) -> i32 {
-    eprintln!("filterfmt driver not implemented yet");
-    2
+use crate::tablefmt::{big_table, gen_run, obs_gets, table_event, table_key_catalogue, Ctx, Out, Values};
+use crate::universe::Universe;
+
+const RANGE: usize = 2048;
+
+// ---------------------------------------------------------------------------------------------
+// the exact policy
+// ---------------------------------------------------------------------------------------------
+
+/// filter = u32 count, then per key u32 length + bytes.  Never empty for a non-empty key list
+/// (an EMPTY filter means "no keys in this range" to the filter block reader).
+#[derive(Debug)]
+pub struct ExactPolicy;
+
+pub fn exact_decode(filter: &[u8]) -> Option<Vec<Vec<u8>>> {
+    if filter.len() < 4 {
+        return None;
+    }
+    let n = u32::from_le_bytes([filter[0], filter[1], filter[2], filter[3]]) as usize;
+    let mut at = 4;
+    let mut keys = vec![];
+    for _ in 0..n {
+        if at + 4 > filter.len() {
+            return None;
+        }
+        let len = u32::from_le_bytes([filter[at], filter[at + 1], filter[at + 2], filter[at + 3]]) as usize;
+        at += 4;
+        if at + len > filter.len() {
+            return None;
+        }
+        keys.push(filter[at..at + len].to_vec());
+        at += len;
+    }
+    if at != filter.len() {
+        return None;
+    }
+    Some(keys)
+}
+
+impl FilterPolicy for ExactPolicy {
+    fn get_name(&self) -> String {
+        "rainverif.Exact".to_string()
+    }
+
+    fn create_filter(&self, keys: &[Vec<u8>]) -> Vec<u8> {
+        let mut out = (keys.len() as u32).to_le_bytes().to_vec();
+        for k in keys {
+            out.extend_from_slice(&(k.len() as u32).to_le_bytes());
+            out.extend_from_slice(k);
+        }
+        out
+    }
+
+    fn key_may_match(&self, key: &[u8], serialized_filter: &[u8]) -> Result<bool, FilterPolicyError> {
+        match exact_decode(serialized_filter) {
+            Some(keys) => Ok(keys.iter().any(|k| k.as_slice() == key)),
+            None => Err(FilterPolicyError::Parse("exact filter is damaged".to_string())),
+        }
+    }
+}
+
+/// Split a serialised filter block into its filters (layout of filter_block_builder.rs:
+/// filters, u32 offsets, u32 offset of the offsets, 1 byte range exponent).
+fn split_filter_block(data: &[u8]) -> Option<(Vec<Vec<u8>>, u8)> {
+    if data.len() < 5 {
+        return None;
+    }
+    let exp = data[data.len() - 1];
+    let body = &data[..data.len() - 1];
+    let oo = u32::from_le_bytes(body[body.len() - 4..].try_into().ok()?) as usize;
+    if oo > body.len() - 4 || (body.len() - 4 - oo) % 4 != 0 {
+        return None;
+    }
+    let offs: Vec<usize> = body[oo..body.len() - 4]
+        .chunks(4)
+        .map(|c| u32::from_le_bytes(c.try_into().unwrap()) as usize)
+        .collect();
+    let mut filters = vec![];
+    for i in 0..offs.len() {
+        let a = offs[i];
+        let b = if i + 1 < offs.len() { offs[i + 1] } else { oo };
+        if a > b || b > oo {
+            return None;
+        }
+        filters.push(body[a..b].to_vec());
+    }
+    Some((filters, exp))
+}
+
+// ---------------------------------------------------------------------------------------------
+// (a) protocol sequences
+// ---------------------------------------------------------------------------------------------
+
+#[derive(Clone, Debug)]
+struct Block {
+    off: usize,
+    keys: Vec<i64>, // ids (1-based index into the run's key list); duplicates allowed
+    /// the first block at offset 0 may be started without a start_block call (TableBuilder does)
+    implicit: bool,
+}
+
+/// Distances between block starts, by what they do to the range index.
+fn step_of(class: usize, rng: &mut StdRng, off: usize) -> usize {
+    let to_boundary = RANGE - off % RANGE;
+    match class {
+        0 => rng.gen_range(1..200),                         // several blocks per range (mostly)
+        1 => to_boundary.saturating_sub(1).max(1),          // last byte before the boundary
+        2 => to_boundary,                                   // exactly onto the boundary
+        3 => to_boundary + rng.gen_range(0..RANGE),         // crosses exactly one boundary
+        4 => to_boundary + RANGE + rng.gen_range(0..RANGE), // crosses two: one empty range
+        _ => to_boundary + RANGE * rng.gen_range(2..6) + rng.gen_range(0..RANGE), // several empty ranges
+    }
+}
+
+fn gen_keys(rng: &mut StdRng, nk: usize, class: usize) -> Vec<i64> {
+    let n = match class {
+        0 => 0,
+        1 => 1,
+        2 => rng.gen_range(2..5),
+        _ => rng.gen_range(5..40),
+    };
+    let mut keys: Vec<i64> = (0..n).map(|_| rng.gen_range(1..=nk as i64)).collect();
+    if n > 1 && rng.gen_bool(0.3) {
+        let d = keys[0];
+        keys.push(d); // duplicate inside one block
+    }
+    keys
+}
+
+/// Every sequence of step classes of length <= 3 with one key per block (the shape space of the
+/// small TLC model), then random ones.
+fn protocol_sequences(rng: &mut StdRng, nk: usize, random: usize) -> Vec<Vec<Block>> {
+    let mut out = vec![];
+    let mut next_key = 0usize;
+    let mut key = |rng: &mut StdRng| -> i64 {
+        next_key += 1;
+        if rng.gen_bool(0.2) {
+            rng.gen_range(1..=nk as i64)
+        } else {
+            ((next_key - 1) % nk) as i64 + 1
+        }
+    };
+    for len in 0..=3usize {
+        let mut idx = vec![0usize; len];
+        loop {
+            for first in 0..3 {
+                // first block: implicit at 0, explicit at 0, explicit somewhere inside range 0..2
+                let mut blocks = vec![];
+                let off0 = if first == 2 { rng.gen_range(1..3 * RANGE) } else { 0 };
+                let first_empty = rng.gen_bool(0.25);
+                blocks.push(Block {
+                    off: off0,
+                    keys: if first_empty { vec![] } else { vec![key(rng)] },
+                    implicit: first == 0,
+                });
+                let mut off = off0;
+                for (j, &c) in idx.iter().enumerate() {
+                    off += step_of(c, rng, off);
+                    // the last block is empty in a third of the sequences (empty final block)
+                    let empty = j + 1 == len && rng.gen_bool(0.33);
+                    blocks.push(Block { off, keys: if empty { vec![] } else { vec![key(rng)] }, implicit: false });
+                }
+                out.push(blocks);
+            }
+            // next index vector
+            let mut j = 0;
+            while j < len {
+                idx[j] += 1;
+                if idx[j] < 6 {
+                    break;
+                }
+                idx[j] = 0;
+                j += 1;
+            }
+            if j == len {
+                break;
+            }
+        }
+    }
+    for _ in 0..random {
+        let n = rng.gen_range(1..9);
+        let mut blocks = vec![];
+        let implicit = rng.gen_bool(0.5);
+        let mut off = if implicit || rng.gen_bool(0.5) { 0 } else { rng.gen_range(1..4 * RANGE) };
+        for j in 0..n {
+            if j > 0 {
+                let class = rng.gen_range(0..6);
+                off += step_of(class, rng, off);
+            }
+            let class = rng.gen_range(0..4);
+            blocks.push(Block { off, keys: gen_keys(rng, nk, class), implicit: implicit && j == 0 });
+        }
+        out.push(blocks);
+    }
+    out
+}
+
+fn run_protocol(
+    keys: &[Vec<u8>],
+    blocks: &[Block],
+    policy: Arc<dyn FilterPolicy>,
+    pname: &str,
+    bits: usize,
+    rng: &mut StdRng,
+    lines: &mut Vec<Value>,
+) {
+    let r = std::panic::catch_unwind(std::panic::AssertUnwindSafe(|| {
+        let mut b = VFilterBuilder::new(Arc::clone(&policy));
+        for bl in blocks {
+            if !bl.implicit {
+                b.start_block(bl.off);
+            }
+            for &k in &bl.keys {
+                b.add_key(keys[(k - 1) as usize].clone());
+            }
+        }
+        b.finish()
+    }));
+    let blocks_json: Vec<Value> = blocks.iter().map(|b| json!({"off": b.off, "keys": b.keys})).collect();
+    let data = match r {
+        Ok(d) => d,
+        Err(_) => {
+            lines.push(json!({"e": "FilterBuilt", "range": RANGE, "policy": pname, "bits": bits, "nf": 0,
+                "ok": false, "blocks": blocks_json, "hasf": false, "filters": [], "err": "builder panicked"}));
+            return;
+        }
+    };
+    let split = split_filter_block(&data);
+    let (nf, exp) = split.as_ref().map_or((0, 0), |(f, e)| (f.len(), *e));
+    let mut hasf = false;
+    let mut filters_json: Vec<Value> = vec![];
+    if pname == "exact" {
+        if let Some((fs, _)) = &split {
+            let ids: HashMap<&[u8], i64> = keys.iter().enumerate().map(|(i, k)| (k.as_slice(), i as i64 + 1)).collect();
+            let mut all = true;
+            for f in fs {
+                if f.is_empty() {
+                    filters_json.push(json!([]));
+                } else if let Some(ks) = exact_decode(f) {
+                    let v: Vec<i64> = ks.iter().map(|k| *ids.get(k.as_slice()).unwrap_or(&-1)).collect();
+                    filters_json.push(json!(v));
+                } else {
+                    all = false;
+                }
+            }
+            hasf = all;
+            if !all {
+                filters_json.clear();
+            }
+        }
+    }
+    let reader = std::panic::catch_unwind(std::panic::AssertUnwindSafe(|| {
+        VFilterReader::new(Arc::clone(&policy), data.clone())
+    }));
+    let reader = match reader {
+        Ok(Ok(r)) => Some(r),
+        _ => None,
+    };
+    lines.push(json!({"e": "FilterBuilt", "range": 1usize << exp.min(30), "policy": pname, "bits": bits, "nf": nf,
+        "ok": reader.is_some() && split.is_some(), "blocks": blocks_json, "hasf": hasf, "filters": filters_json,
+        "err": ""}));
+    let reader = match reader {
+        Some(r) => r,
+        None => return,
+    };
+    // probes: at every block's offset every key of that block, plus keys of other blocks and
+    // unused keys (the specification only constrains the ones that must match)
+    let mut list: Vec<[i64; 3]> = vec![];
+    let used: Vec<i64> = blocks.iter().flat_map(|b| b.keys.iter().cloned()).collect();
+    for bl in blocks {
+        let mut probe: Vec<i64> = bl.keys.clone();
+        for _ in 0..3 {
+            if let Some(k) = used.choose(rng) {
+                probe.push(*k);
+            }
+            probe.push(rng.gen_range(1..=keys.len() as i64));
+        }
+        probe.sort_unstable();
+        probe.dedup();
+        for k in probe {
+            let res = std::panic::catch_unwind(std::panic::AssertUnwindSafe(|| {
+                reader.key_may_match(bl.off as u64, &keys[(k - 1) as usize])
+            }));
+            // a panic while probing hides the key just as well as `false`
+            list.push([bl.off as i64, k, if res.unwrap_or(false) { 1 } else { 0 }]);
+        }
+    }
+    lines.push(json!({"e": "FilterProbes", "list": list}));
+}
+
+// ---------------------------------------------------------------------------------------------
+// (b) the policy axiom
+// ---------------------------------------------------------------------------------------------
+
+fn gen_key_set(rng: &mut StdRng, shape: usize) -> (Vec<Vec<u8>>, &'static str) {
+    let n = match rng.gen_range(0..10) {
+        0 => 0,
+        1 => 1,
+        2 => rng.gen_range(2..5),
+        3..=5 => rng.gen_range(5..60),
+        6..=7 => rng.gen_range(60..500),
+        8 => rng.gen_range(500..1500),
+        _ => rng.gen_range(1500..=3000),
+    };
+    let mut keys: Vec<Vec<u8>> = Vec::with_capacity(n + 8);
+    let name = match shape % 5 {
+        0 => {
+            // arbitrary bytes, every length mod 4
+            for i in 0..n {
+                let len = if rng.gen_bool(0.5) { i % 13 } else { rng.gen_range(0..40) };
+                keys.push((0..len).map(|_| rng.gen::<u8>()).collect());
+            }
+            "random"
+        }
+        1 => {
+            // sequential numbers as text and as integers
+            let base: u32 = rng.gen();
+            for i in 0..n {
+                if i % 2 == 0 {
+                    keys.push(format!("{}", base.wrapping_add(i as u32)).into_bytes());
+                } else {
+                    keys.push(base.wrapping_add(i as u32).to_le_bytes().to_vec());
+                }
+            }
+            "sequential"
+        }
+        2 => {
+            // long shared prefix, tails of length 0..7
+            let p: Vec<u8> = vec![b'x'; rng.gen_range(1..70)];
+            for i in 0..n {
+                let mut k = p.clone();
+                for j in 0..(i % 8) {
+                    k.push(((i >> (j % 4)) & 0xff) as u8);
+                }
+                keys.push(k);
+            }
+            "prefix"
+        }
+        3 => {
+            // runs of 0x00 / 0xff / high-bit bytes (sign handling of the tail bytes)
+            for i in 0..n {
+                let b = *[0x00u8, 0xff, 0x80, 0x7f].choose(rng).unwrap();
+                let mut k = vec![b; i % 11];
+                if rng.gen_bool(0.3) {
+                    k.push(rng.gen());
+                }
+                keys.push(k);
+            }
+            "bytesruns"
+        }
+        _ => {
+            // few distinct keys, many duplicates
+            let d = rng.gen_range(1..6);
+            let pool: Vec<Vec<u8>> = (0..d).map(|_| (0..rng.gen_range(0..9)).map(|_| rng.gen::<u8>()).collect()).collect();
+            for _ in 0..n {
+                keys.push(pool.choose(rng).unwrap().clone());
+            }
+            "duplicates"
+        }
+    };
+    if n > 0 && rng.gen_bool(0.5) {
+        keys.push(vec![]); // the empty key
+    }
+    if keys.len() > 1 && rng.gen_bool(0.5) {
+        let d = keys[rng.gen_range(0..keys.len())].clone();
+        keys.push(d);
+    }
+    for len in 0..4 {
+        if n > 3 && rng.gen_bool(0.5) {
+            keys.push(vec![0xA0 + len as u8; len]); // one key of every length mod 4
+        }
+    }
+    (keys, name)
+}
+
+fn policy_probe(bits: usize, keys: &[Vec<u8>], shape: &str) -> Value {
+    let r = std::panic::catch_unwind(|| {
+        let p = BloomFilterPolicy::new(bits);
+        let f = p.create_filter(keys);
+        let (mut missing, mut errs, mut first) = (0usize, 0usize, 0usize);
+        for (i, k) in keys.iter().enumerate() {
+            match p.key_may_match(k, &f) {
+                Ok(true) => {}
+                Ok(false) => {
+                    missing += 1;
+                    if first == 0 {
+                        first = i + 1;
+                    }
+                }
+                Err(_) => errs += 1,
+            }
+        }
+        (missing, errs, first, f.len())
+    });
+    let mut d: Vec<&Vec<u8>> = keys.iter().collect();
+    d.sort();
+    d.dedup();
+    match r {
+        Ok((missing, errs, first, flen)) => json!({"e": "PolicyProbe", "bits": bits, "n": keys.len(),
+            "distinct": d.len(), "missing": missing, "errs": errs, "first": first, "shape": shape, "flen": flen}),
+        // a panic in create_filter / key_may_match: every member counts as missed
+        Err(_) => json!({"e": "PolicyProbe", "bits": bits, "n": keys.len(), "distinct": d.len(),
+            "missing": keys.len().max(1), "errs": 0, "first": 1, "shape": "panic", "flen": 0}),
+    }
+}
+
+// ---------------------------------------------------------------------------------------------
+// one run
+// ---------------------------------------------------------------------------------------------
+
+#[derive(Clone, Debug, serde::Serialize, serde::Deserialize)]
+pub struct FilterCfg {
+    pub seed: u64,
+    /// random protocol sequences in addition to the enumerated ones
+    pub random: usize,
+    /// key sets per bits_per_key value
+    pub sets: usize,
+    /// tables (each built for 4 block sizes x 2 policies)
+    pub tables: usize,
+    /// big (digest-checked) tables, each built for 2 block sizes x 2 policies
+    #[serde(default)]
+    pub big: usize,
+}
+
+pub fn run_filters(cfg: &FilterCfg, run_no: u64) -> (Vec<Value>, usize) {
+    let mut rng = StdRng::seed_from_u64(cfg.seed.wrapping_mul(0x9E3779B97F4A7C15) ^ 0xf117e5);
+    // key list of the protocol part: adversarial keys; ids = index + 1
+    let mut keys = table_key_catalogue(&mut rng);
+    keys.retain(|k| k.len() < 1000);
+    keys.shuffle(&mut rng);
+    keys.truncate(24);
+    if !keys.contains(&vec![]) {
+        keys.push(vec![]);
+    }
+    // the table part uses its own ordered universe; nk covers both id spaces
+    let mut cat = table_key_catalogue(&mut rng);
+    cat.shuffle(&mut rng);
+    cat.truncate(rng.gen_range(6..=14));
+    let u = Universe::from_keys(cat);
+    let nk = keys.len().max(u.n());
+    let mut lines = vec![json!({"e": "Reset", "run": run_no, "seed": cfg.seed, "tag": "", "nk": nk,
+                                "driver": "filterfmt"})];
+    // (a)
+    let seqs = protocol_sequences(&mut rng, keys.len(), cfg.random);
+    for blocks in &seqs {
+        let bits = rng.gen_range(1..=64);
+        run_protocol(&keys, blocks, Arc::new(ExactPolicy), "exact", 0, &mut rng, &mut lines);
+        run_protocol(&keys, blocks, Arc::new(BloomFilterPolicy::new(bits)), "bloom", bits, &mut rng, &mut lines);
+    }
+    // (b)
+    for bits in 1..=64usize {
+        for j in 0..cfg.sets {
+            let (ks, shape) = gen_key_set(&mut rng, j + bits);
+            lines.push(policy_probe(bits, &ks, shape));
+        }
+    }
+    // (c)
+    let mut tables = 0usize;
+    let mut vals = Values::new();
+    let mut number = 1u64;
+    for _ in 0..cfg.tables {
+        let run = gen_run(&mut rng, &u, &mut vals, 3);
+        if run.is_empty() {
+            continue;
+        }
+        let tg: Vec<(i64, u64)> = run.iter().map(|e| (e.k, e.s)).collect();
+        let bits = rng.gen_range(1..=64usize);
+        for &block in [16usize, 256, 4096, 1 << 22].iter() {
+            for exact in [true, false] {
+                let policy: Arc<dyn FilterPolicy> = if exact {
+                    Arc::new(ExactPolicy)
+                } else {
+                    Arc::new(BloomFilterPolicy::new(bits))
+                };
+                number += 1;
+                tables += 1;
+                let extra = json!({"policy": if exact { "exact" } else { "bloom" }, "bits": if exact { 0 } else { bits }});
+                if let Some(t) = table_event(&u, &run, block, Some(policy), number, &mut lines, extra) {
+                    let ctx = Ctx { u: &u, vals: &vals };
+                    lines.push(obs_gets(&ctx, &t, &tg));
+                }
+            }
+        }
+    }
+    for _ in 0..cfg.big {
+        let n = *[1000usize, 3000, 8000].choose(&mut rng).unwrap();
+        let bits = rng.gen_range(1..=64usize);
+        for &block in [64usize, 4096].iter() {
+            for exact in [true, false] {
+                let policy: Arc<dyn FilterPolicy> = if exact {
+                    Arc::new(ExactPolicy)
+                } else {
+                    Arc::new(BloomFilterPolicy::new(bits))
+                };
+                number += 1;
+                tables += 1;
+                big_table(&mut rng, n, block, Some(policy), number, &mut lines);
+            }
+        }
+    }
+    (lines, tables)
+}
+
+pub fn cmd(m: &HashMap<String, String>) -> i32 {
+    let out = PathBuf::from(m.get("out").cloned().unwrap_or_else(|| "/verif/out/c14/filterfmt".into()));
+    let seed0: u64 = crate::arg_of(m, "seed", 1);
+    let runs: u64 = crate::arg_of(m, "runs", 2);
+    let mut cfgs: Vec<FilterCfg> = (seed0..seed0 + runs)
+        .map(|seed| FilterCfg {
+            seed,
+            random: crate::arg_of(m, "random", 100),
+            sets: crate::arg_of(m, "sets", 5),
+            tables: crate::arg_of(m, "tables", 6),
+            big: crate::arg_of(m, "big", 1),
+        })
+        .collect();
+    if let Some(p) = m.get("replay") {
+        let v: Value = serde_json::from_str(&std::fs::read_to_string(p).expect("replay file")).unwrap();
+        cfgs = vec![serde_json::from_value(v["cfg"].clone()).expect("replay cfg")];
+    }
+    let mut o = Out::new(out);
+    for (i, cfg) in cfgs.iter().enumerate() {
+        let (lines, tables) = run_filters(cfg, i as u64 + 1);
+        let panics = crate::common::take_panics();
+        o.add_run(
+            lines,
+            json!({"seed": cfg.seed, "status": "ok", "tables": tables, "panics": panics.len()}),
+            json!({"driver": "filterfmt", "seed": cfg.seed, "cfg": cfg}),
+        );
+    }
+    o.finish();
+    0
 }
